@@ -341,6 +341,10 @@ class Exec:
                 outcome, val = "return", r.v
             except _Raise as r:
                 outcome, val = "raise", r.exc
+            except _Break:
+                outcome, val = "break", None          # a loop-body fragment left its (enclosing, not extracted) loop early
+            except _Continue:
+                outcome, val = "continue", None
             self.paths.append(Path(list(self.pc[len(self.pre):]), list(self.facts), outcome, val, env, list(self._taken), list(self.effects)))
             if self.opts.get("on_path_end"):
                 self.paths[-1].state = self.opts["on_path_end"]()
